@@ -1,5 +1,14 @@
 (* Proofs about the evaluation state machine of DdsEval.v (C01, C04, C10, C11, C15), over the vocabulary of
-   EvalSpec.v.  See the report at the end of the file for the statements that had to be strengthened. *)
+   EvalSpec.v.
+   - exec_paths_unchanged, exec_blobs_monotone, exec_log_mono: every mode, every program, no hypothesis.
+   - exec_plain_pv: plain execution without loads is the pure semantics pv_fn.
+   - dds_exec_correct_partial / dds_call_correct_partial: C01 under sound_fn PLUS strict_fn / root_strict ("a key that
+     denotes a value belongs only to nodes whose plain execution returns").  Without them the statements are false:
+     dds_exec_correct_false, dds_call_correct_false (section 8).  dds_exec_correct_ret / dds_call_correct_ret: the
+     original hypotheses suffice when plain execution returns a value.
+   - rejected_is_pure, analysis_only_pure, fail_no_commit, no_commit_keeps_paths, analysis_paths_only, commit_exact,
+     commit_only_when_complete: no hypothesis on program, store or signatures.
+   - history_sound, history_monotone: StoreOK along every history of calls satisfying call_hyp. *)
 From Coq Require Import List Ascii String ZArith NArith Bool Lia.
 From DDS Require Import Base.Bytes L0_Hash.PyVal L1_Args.ArgCtx L3_Sig.Program L3_Sig.Sig
      L4_Eval.Stages L4_Eval.DdsEval L4_Eval.EvalSpec.
@@ -271,7 +280,8 @@ Section Inv.
   Hypothesis R_trans : forall a b c, R a b -> R b c -> R a c.
   Hypothesis R_log : forall t s, R s (st_log t s).
   Hypothesis R_keep : forall p v s, R s (st_keep p v s).
-  Hypothesis R_put : forall k v s, R s (st_put k v s).
+  (* a blob is written under a key only after that key was looked up and missed; the callee ran in between *)
+  Hypothesis R_put : forall k v s s1, blookup k (s_blobs s) = None -> R s s1 -> R s (st_put k v s1).
 
   Definition inv_fn (f : fn) : Prop := forall m pvals s o s', exec_fn m f pvals s = (o, s') -> R s s'.
   Definition inv_body (b : body) : Prop := forall m en s x s', exec_body m b en s = (x, s') -> R s s'.
@@ -286,10 +296,10 @@ Section Inv.
       destruct o; inversion Hex; subst; try exact Hg.
       eapply R_trans; [exact Hg|apply R_keep].
     - destruct (blookup path req) as [key|]; [|inversion Hex; subst; apply R_refl].
-      destruct (blookup key (s_blobs s)) as [v0|]; [inversion Hex; subst; apply R_refl|].
+      destruct (blookup key (s_blobs s)) as [v0|] eqn:Hb; [inversion Hex; subst; apply R_refl|].
       destruct (exec_fn (Dds req) g pv s) as [o s1] eqn:Hg. apply IHg in Hg.
       destruct o; inversion Hex; subst; try exact Hg.
-      eapply R_trans; [exact Hg|apply R_put].
+      apply R_put; [exact Hb|exact Hg].
   Qed.
 
   Lemma inv_user : forall m en s g pv x s',
@@ -348,8 +358,30 @@ End Inv.
 Lemma exec_paths_unchanged : forall m f pvals s, s_paths (snd (exec_fn m f pvals s)) = s_paths s.
 Proof.
   intros m f pvals s.
-  apply (exec_inv (fun a b => s_paths b = s_paths a)); try reflexivity.
-  intros a b c Hab Hbc. congruence.
+  apply (exec_inv (fun a b => s_paths b = s_paths a)).
+  - reflexivity.
+  - intros a b c Hab Hbc. congruence.
+  - reflexivity.
+  - reflexivity.
+  - intros k v a b _ Hab. exact Hab.
+Qed.
+
+(* the blobs present when an execution starts are still there, unchanged, when it ends: every mode, every program,
+   no hypothesis on the store or the signatures *)
+Definition ext (s s' : state) : Prop :=
+  forall k v, blookup k (s_blobs s) = Some v -> blookup k (s_blobs s') = Some v.
+
+Lemma exec_blobs_monotone : forall m f pvals s, ext s (snd (exec_fn m f pvals s)).
+Proof.
+  intros m f pvals s. apply (exec_inv ext).
+  - intros a k v Hk. exact Hk.
+  - intros a b c Hab Hbc k v Hk. apply Hbc. apply Hab. exact Hk.
+  - intros t a k v Hk. exact Hk.
+  - intros p v0 a k v Hk. exact Hk.
+  - intros k0 v0 a b Hnone Hab k v Hk.
+    change (blookup k (bupdate k0 v0 (s_blobs b)) = Some v).
+    rewrite blookup_bupdate_other; [apply Hab; exact Hk|].
+    intro Heq. subst k0. rewrite Hnone in Hk. discriminate Hk.
 Qed.
 
 (* the execution log only grows *)
@@ -361,7 +393,7 @@ Proof.
   - intros a b c [l1 H1] [l2 H2]. exists (l1 ++ l2). rewrite H2, H1, app_assoc. reflexivity.
   - intros t a. exists [t]. reflexivity.
   - intros p v a. exists []. rewrite app_nil_r. reflexivity.
-  - intros k v a. exists []. rewrite app_nil_r. reflexivity.
+  - intros k v a b _ [l Hl]. exists l. exact Hl.
 Qed.
 
 (* ------------------------------------------------------------------------------------------------------------ *)
@@ -636,8 +668,6 @@ Section WithDen.
   Proof. intros sp f pvals Hr. apply (proj1 strict_of_ret_all); exact Hr. Qed.
 
   (* ---- 4.4 the invariant carried through an execution ---- *)
-  Definition ext (s s' : state) : Prop :=
-    forall k v, blookup k (s_blobs s) = Some v -> blookup k (s_blobs s') = Some v.
   Definition post (s s' : state) : Prop := StoreOK Den s' /\ ext s s'.
 
   Lemma post_refl : forall s, StoreOK Den s -> post s s.
@@ -815,25 +845,11 @@ Section WithDen.
     apply dds_exec_correct_partial; try assumption. apply strict_of_ret; exact Hr.
   Qed.
 
-  Lemma dds_exec_monotone_partial : forall f pvals s sp k v,
-    blookup k (s_blobs s) = Some v -> StoreOK Den s -> no_loads_fn f = true ->
-    sound_fn Den sp f pvals -> strict_fn sp f pvals ->
+  (* theorem 3 needs none of StoreOK / no_loads / sound_fn / Den_fun: see exec_blobs_monotone *)
+  Lemma dds_exec_monotone : forall f pvals s sp k v,
+    blookup k (s_blobs s) = Some v ->
     blookup k (s_blobs (snd (exec_fn (Dds sp) f pvals s))) = Some v.
-  Proof.
-    intros f pvals s sp k v Hk Hok Hnl Hs Hst.
-    destruct (exec_fn (Dds sp) f pvals s) as [o s'] eqn:Hex.
-    destruct (dds_exec_post f pvals s sp o s' Hnl Hok Hs Hst Hex) as [_ [_ Hext]].
-    simpl. apply Hext; exact Hk.
-  Qed.
-
-  Lemma dds_exec_monotone_ret : forall f pvals s sp k v,
-    blookup k (s_blobs s) = Some v -> StoreOK Den s -> no_loads_fn f = true ->
-    sound_fn Den sp f pvals -> is_ret (pv_fn f pvals) = true ->
-    blookup k (s_blobs (snd (exec_fn (Dds sp) f pvals s))) = Some v.
-  Proof.
-    intros f pvals s sp k v Hk Hok Hnl Hs Hr.
-    apply dds_exec_monotone_partial; try assumption. apply strict_of_ret; exact Hr.
-  Qed.
+  Proof. intros f pvals s sp k v Hk. apply exec_blobs_monotone; exact Hk. Qed.
 
   (* ---------------------------------------------------------------------------------------------------------- *)
   (* 5. the top-level call                                                                                      *)
@@ -1005,7 +1021,8 @@ Section WithDen.
   Proof.
     intros c f sty pos kw s x sp pv Hnl Hok Ha Hev Hbind Hroot Hs Hrs Hst.
     destruct (dds_call_core c f sty pos kw s x sp Hnl Hok Ha Hev) as [[Hok' _] Hfst].
-    - intros pv' Hpv'. rewrite Hbind in Hpv'. inversion Hpv'; subst pv'. repeat split; assumption.
+    - intros pv' Hpv'. rewrite Hbind in Hpv'. inversion Hpv'; subst pv'.
+      exact (conj Hroot (conj Hs (conj Hrs Hst))).
     - split; [apply Hfst; exact Hbind|exact Hok'].
   Qed.
 
@@ -1140,6 +1157,10 @@ Section WithDen.
       + rewrite (proj1 (analysis_only_pure c f sty pos kw s Hev)). apply post_refl; exact Hok.
   Qed.
 
+  Theorem dds_call_store_ok : forall c f sty pos kw s,
+    StoreOK Den s -> call_hyp s (c, f, sty, pos, kw) -> StoreOK Den (snd (dds_call H mx c f sty pos kw s)).
+  Proof. intros c f sty pos kw s Hok Hh. exact (proj1 (dds_call_post (c, f, sty, pos, kw) s Hok Hh)). Qed.
+
   (* one step of a history: some call whose hypotheses hold at the state where it is issued *)
   Inductive call_ok : state -> state -> Prop :=
   | CallOk : forall cl s, call_hyp s cl -> call_ok s (snd (do_call cl s)).
@@ -1185,3 +1206,128 @@ Section WithDen.
   Proof. intros l Hl. apply history_sound; [apply StoreOK_empty|exact Hl]. Qed.
 
 End WithDen.
+
+(* ------------------------------------------------------------------------------------------------------------ *)
+(* 7. non-vacuity: the hypotheses of the theorems are satisfiable on a program with a keep                     *)
+(* ------------------------------------------------------------------------------------------------------------ *)
+
+Lemma StoreOK_single : forall (Den : bytes -> rv -> Prop) k v ps lg kp,
+  Den k v -> StoreOK Den (State [(k, v)] ps lg kp).
+Proof.
+  intros Den k v ps lg kp Hd k' v' Hk. cbn [s_blobs blookup] in Hk.
+  destruct (bytes_eqb k' k) eqn:E; [|discriminate Hk].
+  apply beqb_true in E. inversion Hk; subst. exact Hd.
+Qed.
+
+(* def g(x): return ("g", x)          def f(a): return ("f", a, dds.keep("/p", g, a)) *)
+Definition ex_g : fn :=
+  Fn (bs "m/g") (bs "g") None [] [Param (bs "x") POK None] None false (bodies_of [Body [] [] (steps_of [])]).
+Definition ex_f : fn :=
+  Fn (bs "m/f") (bs "f") None [] [Param (bs "a") POK None] None false
+     (bodies_of [Body [] [] (steps_of [SKeep 1 1 (bs "/p") ex_g [(EParam 0, ARun)] []])]).
+Definition ex_pv : list rv := [RVal (VInt 7)].
+Definition ex_gv : rv := RTup [RVal (VStr (bs "g")); RVal (VInt 7)].
+Definition ex_fv : rv := RTup [RVal (VStr (bs "f")); RVal (VInt 7); ex_gv].
+Definition ex_key : bytes := bs "K".
+Definition ex_sp : list (bytes * bytes) := [(bs "/p", ex_key)].
+Definition ex_Den (k : bytes) (v : rv) : Prop := k = ex_key /\ v = ex_gv.
+
+Lemma ex_Den_fun : forall k v v', ex_Den k v -> ex_Den k v' -> v = v'.
+Proof. intros k v v' [_ Hv] [_ Hv']. congruence. Qed.
+
+Example ex_nonvacuous :
+  StoreOK ex_Den st_empty /\ no_loads_fn ex_f = true /\
+  sound_fn ex_Den ex_sp ex_f ex_pv /\ strict_fn ex_Den ex_sp ex_f ex_pv /\
+  pv_fn ex_f ex_pv = Ret ex_fv.
+Proof.
+  split; [apply StoreOK_empty|]. split; [reflexivity|].
+  assert (Hpv : pv_fn ex_f ex_pv = Ret ex_fv) by (vm_compute; reflexivity).
+  split; [|split; [apply strict_of_ret; rewrite Hpv; reflexivity|exact Hpv]].
+  vm_compute. split; [|exact I]. eexists. split; [reflexivity|]. split; [|exact I].
+  intros v Hv. inversion Hv; subst. split; reflexivity.
+Qed.
+
+(* the theorem applied: first evaluation computes and stores, the second is served from the store *)
+Example ex_first_run :
+  exec_fn (Dds ex_sp) ex_f ex_pv st_empty = (Ret ex_fv, State [(ex_key, ex_gv)] [] [bs "g"; bs "f"] []).
+Proof. vm_compute. reflexivity. Qed.
+
+Example ex_second_run :
+  exec_fn (Dds ex_sp) ex_f ex_pv (State [(ex_key, ex_gv)] [] [] []) =
+  (Ret ex_fv, State [(ex_key, ex_gv)] [] [bs "f"] []).
+Proof. vm_compute. reflexivity. Qed.
+
+Example ex_theorem_instance : forall s, StoreOK ex_Den s ->
+  fst (exec_fn (Dds ex_sp) ex_f ex_pv s) = Ret ex_fv /\ StoreOK ex_Den (snd (exec_fn (Dds ex_sp) ex_f ex_pv s)).
+Proof.
+  intros s Hok. destruct ex_nonvacuous as [_ [Hnl [Hs [Hst Hpv]]]].
+  destruct (dds_exec_correct_partial ex_Den ex_Den_fun ex_f ex_pv s ex_sp Hnl Hok Hs Hst) as [Hf [Hok' _]].
+  rewrite Hpv in Hf. split; assumption.
+Qed.
+
+(* ------------------------------------------------------------------------------------------------------------ *)
+(* 8. why [strict_fn] / [root_strict] are needed: the statements without them are false for the model          *)
+(* ------------------------------------------------------------------------------------------------------------ *)
+
+(* def g(): raise ValueError          def f(): return ("f", dds.keep("/p", g)) *)
+Definition cx_g : fn :=
+  Fn (bs "m/g") (bs "g") (Some (bs "ValueError")) [] [] None false (bodies_of [Body [] [] SNil]).
+Definition cx_f : fn :=
+  Fn (bs "m/f") (bs "f") None [] [] None false
+     (bodies_of [Body [] [] (steps_of [SKeep 1 1 (bs "/p") cx_g [] []])]).
+Definition cx_sp : list (bytes * bytes) := [(bs "/p", bs "K")].
+Definition cx_Den (k : bytes) (v : rv) : Prop := k = bs "K" /\ v = RVal VNone.
+Definition cx_s : state := State [(bs "K", RVal VNone)] [] [] [].
+
+(* all the hypotheses of the requested [dds_exec_correct] hold, its conclusion does not: the key of a kept node that
+   raises denotes a value, the store holds it, the memoised execution returns where plain execution raises *)
+Example dds_exec_correct_false :
+  (forall k v v', cx_Den k v -> cx_Den k v' -> v = v') /\
+  no_loads_fn cx_f = true /\ StoreOK cx_Den cx_s /\ sound_fn cx_Den cx_sp cx_f [] /\
+  fst (exec_fn (Dds cx_sp) cx_f [] cx_s) <> pv_fn cx_f [].
+Proof.
+  split; [intros k v v' [_ Hv] [_ Hv']; congruence|]. split; [reflexivity|].
+  split; [apply StoreOK_single; split; reflexivity|]. split.
+  - vm_compute. split; [|exact I]. eexists. split; [reflexivity|]. split; [|exact I].
+    intros v Hv. discriminate Hv.
+  - intro Hc. vm_compute in Hc. discriminate Hc.
+Qed.
+
+(* the same at top level, through the real analysis (identity "hash", all stages, pinned pre-pass) *)
+Definition cx_H (b : bytes) : bytes := b.
+Definition cx_cfg : config := Config [Analysis; StoreInspect; Eval; StoreCommit; PathCommit] false.
+Definition cx_res : outcome + (fi * list (bytes * bytes)) := analysis cx_H None cx_cfg cx_f StEval [] [] st_empty.
+Definition cx_x : fi := match cx_res with inr (x, _) => x | inl _ => FI [] None [] 0 [] [] end.
+Definition cx_sp2 : list (bytes * bytes) := match cx_res with inr (_, sp) => sp | inl _ => [] end.
+Definition cx_K2 : bytes := match blookup (bs "/p") cx_sp2 with Some k => k | None => [] end.
+Definition cx_Den2 (k : bytes) (v : rv) : Prop := k = cx_K2 /\ v = RVal VNone.
+Definition cx_s2 : state := State [(cx_K2, RVal VNone)] [] [] [].
+
+Example dds_call_correct_false :
+  (forall k v v', cx_Den2 k v -> cx_Den2 k v' -> v = v') /\
+  no_loads_fn cx_f = true /\ StoreOK cx_Den2 cx_s2 /\
+  analysis cx_H None cx_cfg cx_f StEval [] [] cx_s2 = inr (cx_x, cx_sp2) /\
+  has_stage Eval (c_stages cx_cfg) = true /\
+  bind_args (fn_params cx_f) 0 (map RVal []) (map (fun nv : bytes * pyval => (fst nv, RVal (snd nv))) []) = Some [] /\
+  root_sound cx_Den2 cx_sp2 cx_x cx_f StEval [] /\ sound_fn cx_Den2 cx_sp2 cx_f [] /\
+  fst (dds_call cx_H None cx_cfg cx_f StEval [] [] cx_s2) <> pv_fn cx_f [].
+Proof.
+  split; [intros k v v' [_ Hv] [_ Hv']; congruence|]. split; [reflexivity|].
+  split; [apply StoreOK_single; split; reflexivity|].
+  split; [vm_compute; reflexivity|]. split; [reflexivity|]. split; [reflexivity|].
+  split; [|split].
+  - split.
+    + intros v Hv. vm_compute in Hv. discriminate Hv.
+    + intros p key v _ _ Hv. vm_compute in Hv. discriminate Hv.
+  - vm_compute. split; [|exact I]. eexists. split; [reflexivity|]. split; [|exact I].
+    intros v Hv. discriminate Hv.
+  - intro Hc. vm_compute in Hc. discriminate Hc.
+Qed.
+
+Print Assumptions dds_exec_correct_partial.
+Print Assumptions dds_call_correct_partial.
+Print Assumptions commit_exact.
+Print Assumptions history_sound.
+Print Assumptions exec_paths_unchanged.
+Print Assumptions dds_exec_monotone.
+Print Assumptions dds_call_correct_false.
